@@ -27,9 +27,9 @@ theorem budget_mono {T : Table} {inv inv' : Nat → Nat → Nat} (h : ∀ l s, i
       by_cases c' : inv x.1.1 x.1.2.1 ≤ x.1.2.2 <;> simp only [c', if_true, if_false] <;> omega
 
 /-- entering slot (l, s) takes its cell out of the budget -/
-theorem budget_enter (T : Table) (inv : Nat → Nat → Nat) (l s : Nat) :
+theorem budget_enter (T : Table) (rf : Nat → Bool) (inv : Nat → Nat → Nat) (l s : Nat) :
     budget T (fun l' s' => if l' = l ∧ s' = s then inv l s + 1 else inv l' s') +
-      ((Prog.ofTable T).script l s (inv l s)).length ≤ budget T inv := by
+      ((Prog.ofTable T rf).script l s (inv l s)).length ≤ budget T inv := by
   induction T with
   | nil => simp [budget, Prog.ofTable]
   | cons x T ih =>
@@ -89,7 +89,7 @@ theorem exec_inv_mono (M : Machine σ α π) (P : Prog) (n : Nat) :
             | none => exact Nat.le_refl _
             | some ap =>
               obtain ⟨a, p⟩ := ap
-              exact ih ({ r with m := m1 }.mark (.emitBegin e g v)) (.loop a p v) l s
+              exact ih ({ r with m := m1 }.mark (.emitBegin e g v)) (.loop a p ⟨v, P.ref g⟩) l s
           · exact Nat.le_refl _
         · have hne : ∀ e g v, a ≠ .emit e g v := fun e g v he => hem ⟨e, g, v, he⟩
           rw [exec_acts_prim _ _ _ _ _ _ hne]
@@ -104,6 +104,7 @@ theorem exec_inv_mono (M : Machine σ α π) (P : Prog) (n : Nat) :
         simp only
         split
         · refine Nat.le_trans ?_ (ih _ _ l s)
+          rw [markIf_inv]
           refine Nat.le_trans ?_ (ih _ _ l s)
           simp only [Run.enter]
           by_cases c : l = r.lIdx l' ∧ s = s'
@@ -122,21 +123,21 @@ theorem nextLive_shorter {live : List Conn} {snap rest : List Nat} {c : Conn}
     | none => rw [hf] at h; have := ih h; simp only [List.length_cons]; omega
 
 section term
-variable (T : Table)
+variable (T : Table) (rf : Nat → Bool)
 
 /-- scripts terminate when the budget (+ their length) is at most `b` -/
 def TermA (b : Nat) : Prop :=
   ∀ (r : Run SState) (as : List Action), r.oof = false → budget T r.inv + as.length ≤ b →
-    ∃ n, (exec Spec.machine (Prog.ofTable T) n r (.acts as)).oof = false
+    ∃ n, (exec Spec.machine (Prog.ofTable T rf) n r (.acts as)).oof = false
 
 /-- emission loops terminate when the budget is at most `b` -/
 def TermL (b : Nat) : Prop :=
-  ∀ (r : Run SState) (a : Nat × Nat) (snap : List Nat) (v : Nat), r.oof = false → budget T r.inv ≤ b →
-    ∃ n, (exec Spec.machine (Prog.ofTable T) n r (.loop a snap v)).oof = false
+  ∀ (r : Run SState) (a : Nat × Nat) (snap : List Nat) (v : Arg), r.oof = false → budget T r.inv ≤ b →
+    ∃ n, (exec Spec.machine (Prog.ofTable T rf) n r (.loop a snap v)).oof = false
 
-theorem termL_of_termA (b : Nat) (hA : TermA T b) : TermL T b := by
+theorem termL_of_termA (b : Nat) (hA : TermA T rf b) : TermL T rf b := by
   intro r a snap v
-  induction hl : snap.length using Nat.strongRecOn generalizing r snap with
+  induction hl : snap.length using Nat.strongRecOn generalizing r snap v with
   | _ k ih =>
     intro hoof hb
     cases hn : Spec.machine.next r.m a snap with
@@ -145,8 +146,8 @@ theorem termL_of_termA (b : Nat) (hA : TermA T b) : TermL T b := by
     | call l s rest =>
       by_cases hal : Spec.machine.aliveL r.m l = true
       · -- the slot body
-        have hbud := budget_enter T r.inv (r.lIdx l) s
-        obtain ⟨n1, h1⟩ := hA (r.enter (r.lIdx l) s v) ((Prog.ofTable T).script (r.lIdx l) s (r.inv (r.lIdx l) s)) hoof
+        have hbud := budget_enter T rf r.inv (r.lIdx l) s
+        obtain ⟨n1, h1⟩ := hA (r.enter (r.lIdx l) s v.val) ((Prog.ofTable T rf).script (r.lIdx l) s (r.inv (r.lIdx l) s)) hoof
           (by simp only [Run.enter]; omega)
         -- the rest of the loop
         have hrest : rest.length < k := by
@@ -159,12 +160,17 @@ theorem termL_of_termA (b : Nat) (hA : TermA T b) : TermL T b := by
               rw [← hn.2.2, ← hl]
               exact nextLive_shorter hnl
           · cases hn
-        have hb2 : budget T (exec Spec.machine (Prog.ofTable T) n1 (r.enter (r.lIdx l) s v)
-            (.acts ((Prog.ofTable T).script (r.lIdx l) s (r.inv (r.lIdx l) s)))).inv ≤ b := by
+        have hb2 : budget T (exec Spec.machine (Prog.ofTable T rf) n1 (r.enter (r.lIdx l) s v.val)
+            (.acts ((Prog.ofTable T rf).script (r.lIdx l) s (r.inv (r.lIdx l) s)))).inv ≤ b := by
           refine Nat.le_trans (budget_mono (exec_inv_mono _ _ n1 _ _)) ?_
           simp only [Run.enter] at hbud ⊢
           omega
-        obtain ⟨n2, h2⟩ := ih rest.length hrest _ rest rfl h1 hb2
+        obtain ⟨n2, h2⟩ := ih rest.length hrest
+          ((exec Spec.machine (Prog.ofTable T rf) n1 (r.enter (r.lIdx l) s v.val)
+            (.acts ((Prog.ofTable T rf).script (r.lIdx l) s (r.inv (r.lIdx l) s)))).markIf v.ref
+              (.ret (v.val + bumpOf ((Prog.ofTable T rf).script (r.lIdx l) s (r.inv (r.lIdx l) s)))))
+          rest (v.after (v.val + bumpOf ((Prog.ofTable T rf).script (r.lIdx l) s (r.inv (r.lIdx l) s)))) rfl
+          (by rw [markIf_oof]; exact h1) (by rw [markIf_inv]; exact hb2)
         refine ⟨max n1 n2 + 1, ?_⟩
         rw [exec_loop, hn]
         simp only [hal, if_true]
@@ -173,8 +179,8 @@ theorem termL_of_termA (b : Nat) (hA : TermA T b) : TermL T b := by
         exact h2
       · exact ⟨1, by rw [exec_loop, hn]; simp only [hal]; exact hoof⟩
 
-theorem termA_succ (b : Nat) (hA : TermA T b) : TermA T (b + 1) := by
-  have hL := termL_of_termA T b hA
+theorem termA_succ (b : Nat) (hA : TermA T rf b) : TermA T rf (b + 1) := by
+  have hL := termL_of_termA T rf b hA
   intro r as
   induction as generalizing r with
   | nil => intro hoof _; exact ⟨1, hoof⟩
@@ -189,8 +195,8 @@ theorem termA_succ (b : Nat) (hA : TermA T b) : TermA T (b + 1) := by
               match Spec.machine.begin (r.emId e) g r.m with
               | (m1, none) => ({ r with m := m1 }.mark (.emitBegin e g v)).mark .emitEnd
               | (m1, some (a, p)) =>
-                { exec Spec.machine (Prog.ofTable T) n ({ r with m := m1 }.mark (.emitBegin e g v)) (.loop a p v) with
-                  m := Spec.machine.finish a (exec Spec.machine (Prog.ofTable T) n ({ r with m := m1 }.mark (.emitBegin e g v)) (.loop a p v)).m }.mark .emitEnd
+                { exec Spec.machine (Prog.ofTable T rf) n ({ r with m := m1 }.mark (.emitBegin e g v)) (.loop a p ⟨v, (Prog.ofTable T rf).ref g⟩) with
+                  m := Spec.machine.finish a (exec Spec.machine (Prog.ofTable T rf) n ({ r with m := m1 }.mark (.emitBegin e g v)) (.loop a p ⟨v, (Prog.ofTable T rf).ref g⟩)).m }.mark .emitEnd
             else r) = r1) ∧ r1.oof = false ∧ budget T r1.inv ≤ budget T r.inv := by
         by_cases c : Spec.machine.aliveE r.m (r.emId e) = true
         · simp only [c, if_true]
@@ -199,9 +205,9 @@ theorem termA_succ (b : Nat) (hA : TermA T b) : TermA T (b + 1) := by
           | none => exact ⟨0, ({ r with m := m1 }.mark (.emitBegin e g v)).mark .emitEnd, fun _ _ => rfl, hoof, Nat.le_refl _⟩
           | some ap =>
             obtain ⟨a, p⟩ := ap
-            obtain ⟨n1, h1⟩ := hL ({ r with m := m1 }.mark (.emitBegin e g v)) a p v hoof (by show budget T r.inv ≤ b; omega)
-            refine ⟨n1, { exec Spec.machine (Prog.ofTable T) n1 ({ r with m := m1 }.mark (.emitBegin e g v)) (.loop a p v) with
-                m := Spec.machine.finish a (exec Spec.machine (Prog.ofTable T) n1 ({ r with m := m1 }.mark (.emitBegin e g v)) (.loop a p v)).m }.mark .emitEnd,
+            obtain ⟨n1, h1⟩ := hL ({ r with m := m1 }.mark (.emitBegin e g v)) a p ⟨v, (Prog.ofTable T rf).ref g⟩ hoof (by show budget T r.inv ≤ b; omega)
+            refine ⟨n1, { exec Spec.machine (Prog.ofTable T rf) n1 ({ r with m := m1 }.mark (.emitBegin e g v)) (.loop a p ⟨v, (Prog.ofTable T rf).ref g⟩) with
+                m := Spec.machine.finish a (exec Spec.machine (Prog.ofTable T rf) n1 ({ r with m := m1 }.mark (.emitBegin e g v)) (.loop a p ⟨v, (Prog.ofTable T rf).ref g⟩)).m }.mark .emitEnd,
               fun n hn => ?_, ?_, ?_⟩
             · simp only
               rw [exec_fuel_mono _ _ n1 _ _ h1 n hn]
@@ -213,7 +219,7 @@ theorem termA_succ (b : Nat) (hA : TermA T b) : TermA T (b + 1) := by
       obtain ⟨n2, h2⟩ := ihas r1 hoof1 (by omega)
       refine ⟨max n1 n2 + 1, ?_⟩
       rw [exec_acts_emit]
-      have e1 := congrArg (fun x => (exec Spec.machine (Prog.ofTable T) (max n1 n2) x (.acts as)).oof)
+      have e1 := congrArg (fun x => (exec Spec.machine (Prog.ofTable T rf) (max n1 n2) x (.acts as)).oof)
         (hr1 (max n1 n2) (Nat.le_max_left ..))
       refine Eq.trans e1 ?_
       rw [exec_fuel_mono _ _ n2 _ _ h2 (max n1 n2) (Nat.le_max_right ..)]
@@ -222,7 +228,7 @@ theorem termA_succ (b : Nat) (hA : TermA T b) : TermA T (b + 1) := by
       obtain ⟨n2, h2⟩ := ihas (r.prim Spec.machine a) (by rw [prim_oof]; exact hoof) (by rw [prim_inv]; omega)
       exact ⟨n2 + 1, by rw [exec_acts_prim _ _ _ _ _ _ hne]; exact h2⟩
 
-theorem termA_all (b : Nat) : TermA T b := by
+theorem termA_all (b : Nat) : TermA T rf b := by
   induction b with
   | zero =>
     intro r as hoof hb
@@ -232,15 +238,15 @@ theorem termA_all (b : Nat) : TermA T b := by
       | cons _ _ => simp only [List.length_cons] at hb; omega
     subst this
     exact ⟨1, hoof⟩
-  | succ b ih => exact termA_succ T b ih
+  | succ b ih => exact termA_succ T rf b ih
 
 theorem spec_runOps_terminates (ops : List Action) :
-    ∀ r : Run SState, r.oof = false → ∃ n, (runOps Spec.machine (Prog.ofTable T) n r ops).oof = false := by
+    ∀ r : Run SState, r.oof = false → ∃ n, (runOps Spec.machine (Prog.ofTable T rf) n r ops).oof = false := by
   induction ops with
   | nil => intro r h; exact ⟨0, h⟩
   | cons a as ih =>
     intro r h
-    obtain ⟨n1, h1⟩ := termA_all T _ r [a] h (Nat.le_refl _)
+    obtain ⟨n1, h1⟩ := termA_all T rf _ r [a] h (Nat.le_refl _)
     obtain ⟨n2, h2⟩ := ih _ h1
     refine ⟨max n1 n2, ?_⟩
     simp only [runOps]
